@@ -81,16 +81,16 @@ def center_writes(ctx) -> None:
         for w in writes:
             n += 1
             idx = strip_typed(w.target[1])
-            asserts = [e for e in p.events[: p.events.index(w)] if e.kind == "assert" and "orthogonality_center" in show(e.value)]
+            # conditions established (assert or if/raise) before the write
+            known = [strip_typed(c) for c, t in p.cond_log[: w.ncond] if t and "orthogonality_center" in show(c)]
             if idx[0] == "slice":
-                # pair: assert centre in {l, r}; store r/l afterwards
-                ok = any(strip_typed(a.value)[0] == "cmp" and strip_typed(a.value)[1] == "in" for a in asserts)
+                # pair: centre in {l, r}; store r/l afterwards
+                ok = any(c[0] == "cmp" and c[1] == "in" for c in known)
                 st = [e for e in p.events[p.events.index(w):] if e.kind == "setattr" and e.name == "orthogonality_center"]
                 ok = ok and len(st) == 1
                 what = "pair"
             else:
-                ok = any(strip_typed(a.value)[0] == "cmp" and strip_typed(a.value)[1] == "==" and
-                         canon(strip_typed(a.value)[3]) == canon(idx) for a in asserts)
+                ok = any(c[0] == "cmp" and c[1] == "==" and canon(c[3]) == canon(idx) for c in known)
                 what = "single"
             ctx.ob("CENTER", f"_evolve {what} write", w.loc(), ok,
                    f"{what}-site factors are replaced at the asserted orthogonality centre" +
